@@ -26,7 +26,8 @@ EXPLANATION = (
     "output exists; (R5) what is written in an iteration is exactly the block just computed (right slice length, right "
     "column/band selection for each output file); (R6) the writer converts to the declared sample width (shared with "
     "C04); (R7) what the transforms consume is right: the read plan (C01's rules re-evaluated) and, for remove_zerodm, the "
-    "bandpass reduction and its kernel (C06's rules for bandpass re-evaluated). Not decided: sample values and the zero-DM quantisation tolerance."
+    "bandpass reduction and its kernel (C06's rules for bandpass re-evaluated). Not decided: sample values and the zero-DM quantisation tolerance. "
+    "Since F38/F52: no negative delay reaches the sub-banding kernel (R2), and a sub-band count that does not divide nchans is rejected before the output exists (R4)."
 )
 BASE = "sigpyproc.base"
 
